@@ -224,18 +224,18 @@ Definition bind {A B} (r : res A) (k : A -> res B) : res B :=
 (* generate_func_code (ctx, f, TRUE): early return when machine_code != NULL *)
 Definition gen_full (w : world) (f : nat) (g : fn) (code : Z) : res world :=
   match data g with
-  | DNone =>
+  | DBBStubs => Stuck SInvalid     (* bb stubs in func_item->data: the function's insns are in generator form *)
+  | _ =>                           (* NULL, or the interpreter's code: saved and put back (saved_data) *)
     match mcode g, calladdr g with
     | Some _, Some ca => Ok (put_fn w f (redirect g ca))
     | Some _, None => Stuck SInvalid
     | None, _ =>
       if fresh w code then
-        let g1 := mkfn (addr g) (redirect_bytes (addr g) code) (Some code) (Some code) DNone
+        let g1 := mkfn (addr g) (redirect_bytes (addr g) code) (Some code) (Some code) (data g)
                        (linked g) (S (gens g)) (wrap_entries g) in
         Ok (put_fn (publish w code (KCode f)) f g1)
       else Stuck SOracle
     end
-  | _ => Stuck SInvalid     (* gen_assert (func_item->data == NULL) *)
   end.
 
 Definition mark_linked (g : fn) : fn :=
